@@ -101,6 +101,11 @@ WRITTEN = [
     ("Where(Where(ds, lambda e, w=0: e.a > w), lambda x, v=3: x.a < v)", False),
     ("Select(Select(ds, lambda e, /: e), lambda v, /: v.a)", False),
     ("First(Select(ds, lambda *a: (a[0].a, 1)))[0]", False),
+    # starred / double-starred arguments of a called lambda (an unknown number of arguments: not to be bound one to one)
+    ("Select(ds, lambda e: (lambda x: x + 1)(*(e.a,)))", False), ("Select(ds, lambda e: (lambda x, y: x + y)(*(e.a, e.b)))", False),
+    ("Select(ds, lambda e: (lambda x, y: x + y)(e.a, *(e.b,)))", False), ("Select(ds, lambda e: (lambda x, y=1: x + y)(*(e.a,)))", False),
+    ("Select(ds, lambda e: (lambda x, y: x + y)(**{'x': e.a, 'y': e.b}))", False), ("Select(ds, lambda e: (lambda x: x + 1)(*[e.a]))", False),
+    ("Select(Select(ds, lambda e: (e.a,)), lambda t: (lambda x: x + 1)(*t))", False),
 ]
 
 
